@@ -73,6 +73,9 @@ struct Peer {
     /// capacity of the in-memory pipe of a stream connection: small ones make every frame go
     /// out in several partial writes
     pipe: usize,
+    /// an honest peer that answers in one go and hangs up: once this many requests have arrived on a stream connection,
+    /// all their answers are written with a single write and the connection is closed (0: off)
+    burst_after: usize,
 }
 
 fn kind_name(k: Kind) -> &'static str {
@@ -246,6 +249,33 @@ async fn serve_stream(peer: Arc<Peer>, server: DuplexStream) {
     let (mut rd, wr) = tokio::io::split(server);
     let wr = Arc::new(tokio::sync::Mutex::new(Some(wr)));
     let closed = Arc::new(tokio::sync::Notify::new());
+    if peer.burst_after > 0 {
+        let mut out = Vec::new();
+        let mut got = 0;
+        while got < peer.burst_after {
+            let mut lenb = [0u8; 2];
+            if rd.read_exact(&mut lenb).await.is_err() {
+                return;
+            }
+            let mut req = vec![0u8; u16::from_be_bytes(lenb) as usize];
+            if rd.read_exact(&mut req).await.is_err() {
+                return;
+            }
+            for (_, _, m) in peer.on_request("stream", &req) {
+                if let Some(m) = m {
+                    out.extend_from_slice(&(m.len() as u16).to_be_bytes());
+                    out.extend_from_slice(&m);
+                }
+            }
+            got += 1;
+        }
+        let mut g = wr.lock().await;
+        if let Some(mut w_) = g.take() {
+            let _ = w_.write_all(&out).await;
+            let _ = w_.shutdown().await;
+        }
+        return;
+    }
     loop {
         let mut lenb = [0u8; 2];
         let r = tokio::select! {
@@ -460,9 +490,13 @@ fn one_case(c: &mut Ctx, fam: &str, idx: u64) {
     // answered honestly, a pause shorter than the idle timeout, then ONE request the peer never answers
     let reuse = transport == "stream" && idx % 60 == 21;
     let n = if reuse { rng.range(2, 5) } else { n };
+    // an honest peer that waits for all requests of the case, answers them with one write and closes the connection
+    // at once: every answer has arrived, every request has to get its own (plain stream transport)
+    let burst = transport == "stream" && idx % 60 == 41;
+    let n = if burst { rng.range(2, 9) } else { n };
     // every fourth case the peer is honest: each request is answered once, correctly, in time, in any order
-    let clean = idx % 4 == 2 && !trickle && !reuse;
-    let waves = if clean || trickle || reuse { 1 } else { rng.range(1, 3) };
+    let clean = idx % 4 == 2 && !trickle && !reuse && !burst;
+    let waves = if clean || trickle || reuse || burst { 1 } else { rng.range(1, 3) };
     let has_stream = matches!(transport, "stream" | "multi_stream" | "dgram_stream" | "redundant");
     let names: Vec<Vec<u8>> = (0..n)
         .map(|k| {
@@ -482,6 +516,9 @@ fn one_case(c: &mut Ctx, fam: &str, idx: u64) {
         if trickle {
             sc = vec![vec![], vec![], vec![]];
         }
+        if burst {
+            sc = vec![vec![Act { delay_ms: 0, kind: Kind::Good }]];
+        }
         if reuse {
             sc = if nm == names.last().unwrap() { vec![vec![], vec![], vec![]] } else { vec![vec![Act { delay_ms: rng.range(0, 300) as u64, kind: Kind::Good }]] };
         }
@@ -493,7 +530,7 @@ fn one_case(c: &mut Ctx, fam: &str, idx: u64) {
         scripts.insert(w::lower(nm), sc);
     }
     let refuse = if !clean && matches!(transport, "multi_stream" | "dgram_stream" | "redundant") && rng.chance(1, 4) { rng.range(1, 3) as u64 } else { 0 };
-    let peer = Arc::new(Peer { inner: Mutex::new(PeerInner { seen: vec![], scripts, attempts: HashMap::new(), recent: vec![], sent: BTreeMap::new(), connects: 0, refuse_stream_connects: refuse, first_seen: HashMap::new() }), rng: Mutex::new(Rng::new(&[c.seed, idx, 15])), pipe: *rng.pick(&[8usize, 13, 64, 1 << 16, 1 << 16]) });
+    let peer = Arc::new(Peer { inner: Mutex::new(PeerInner { seen: vec![], scripts, attempts: HashMap::new(), recent: vec![], sent: BTreeMap::new(), connects: 0, refuse_stream_connects: refuse, first_seen: HashMap::new() }), rng: Mutex::new(Rng::new(&[c.seed, idx, 15])), pipe: *rng.pick(&[8usize, 13, 64, 1 << 16, 1 << 16]), burst_after: if burst { n } else { 0 } });
     // net::client::stream measures its response timeout with std::time::Instant, which the paused tokio clock does not move:
     // the plain stream transport is exercised in real time, with every delay and timeout a tenth as long
     let real_time = transport == "stream";
@@ -635,6 +672,10 @@ fn one_case(c: &mut Ctx, fam: &str, idx: u64) {
         }
         match &d.result {
             Err(e) => {
+                if burst {
+                    c.violation("honest-peer-request-failed:stream:answers-in-one-burst-then-close", &format!("request {} of {} over one stream connection failed ({}) although the peer answered all of them, correctly, in one write before it closed the connection", d.k, n, e), rp(c, json!({})));
+                    return;
+                }
                 if clean || (reuse && d.k + 1 < n) {
                     c.violation(&format!("honest-peer-request-failed:{}", transport), &format!("request {} of {} concurrent ones over {} failed ({}) although the peer answered every request once, correctly and within {} ms", d.k, n, transport, e, 800 / scale), rp(c, json!({})));
                     return;
@@ -694,6 +735,9 @@ fn one_case(c: &mut Ctx, fam: &str, idx: u64) {
     if reuse {
         c.count("reused_idle_connection_cases", 1);
     }
+    if burst {
+        c.count("burst_then_close_cases", 1);
+    }
     if clean {
         c.count("honest_peer_cases", 1);
     }
@@ -703,7 +747,104 @@ fn one_case(c: &mut Ctx, fam: &str, idx: u64) {
     }
 }
 
+
+/// One stream connection used for a very long time: more requests than there are message IDs, a
+/// few at a time, every one answered at once by an honest peer. All of them have to succeed: the
+/// table of outstanding requests hands IDs out again and again, whatever the total.
+fn long_connection_case(c: &mut Ctx, fam: &str, idx: u64) {
+    let inflight = [1usize, 2, 3, 8, 1, 5, 16, 4][(idx % 8) as usize];
+    let total: usize = 66_000 + (idx as usize % 7) * 300;
+    let rt = tokio::runtime::Builder::new_current_thread().enable_all().build().unwrap();
+    let res = ctx::catch(|| {
+        rt.block_on(async move {
+            let (client, server) = tokio::io::duplex(1 << 16);
+            // the peer: echo every request as its answer
+            tokio::spawn(async move {
+                let (mut rd, mut wr) = tokio::io::split(server);
+                loop {
+                    let mut lenb = [0u8; 2];
+                    if rd.read_exact(&mut lenb).await.is_err() {
+                        break;
+                    }
+                    let mut req = vec![0u8; u16::from_be_bytes(lenb) as usize];
+                    if rd.read_exact(&mut req).await.is_err() || req.len() < 12 {
+                        break;
+                    }
+                    req[2] |= 0x80;
+                    let mut f = (req.len() as u16).to_be_bytes().to_vec();
+                    f.extend_from_slice(&req);
+                    if wr.write_all(&f).await.is_err() {
+                        break;
+                    }
+                }
+            });
+            let (conn, tr) = stream::Connection::<RequestMessage<Vec<u8>>, domain::net::client::request::RequestMessageMulti<Vec<u8>>>::new(client);
+            tokio::spawn(tr.run());
+            let conn = Arc::new(conn);
+            let mut done = 0usize;
+            let mut first_failure: Option<(usize, String)> = None;
+            let mut max_id = 0u16;
+            while done < total && first_failure.is_none() {
+                let mut hs = Vec::new();
+                for j in 0..inflight.min(total - done) {
+                    let k = done + j;
+                    let l = format!("q{}", k);
+                    let mut qn = vec![l.len() as u8];
+                    qn.extend_from_slice(l.as_bytes());
+                    qn.extend_from_slice(b"\x04test\x00");
+                    let mut gr = conn.send_request(mk_request(&qn));
+                    hs.push(async move { (k, qn, tokio::time::timeout(Duration::from_secs(20), gr.get_response()).await) });
+                }
+                for (k, qn, r) in futures_util::future::join_all(hs).await {
+                    match r {
+                        Ok(Ok(m)) => {
+                            let ok = w::parse_message(m.as_slice()).map(|pm| { max_id = max_id.max(pm.id); pm.questions.len() == 1 && w::lower(&pm.questions[0].name) == w::lower(&qn) }).unwrap_or(false);
+                            if !ok && first_failure.is_none() {
+                                first_failure = Some((k, "an answer to another question".into()));
+                            }
+                        }
+                        Ok(Err(e)) => {
+                            if first_failure.is_none() {
+                                first_failure = Some((k, format!("{}", e)));
+                            }
+                        }
+                        Err(_) => {
+                            if first_failure.is_none() {
+                                first_failure = Some((k, "no completion within 20 s".into()));
+                            }
+                        }
+                    }
+                }
+                done += inflight;
+            }
+            (done.min(total), first_failure, max_id)
+        })
+    });
+    drop(rt);
+    let ex = json!({"requests": total, "in_flight": inflight});
+    match res {
+        Err(pi) => c.violation(&format!("panic:{}", pi.site()), &format!("panic on a long-lived stream connection: {} at {}:{}", pi.msg, pi.file, pi.line), c.replay_of(fam, idx, ex)),
+        Ok((done, Some((k, e)), _)) => {
+            let _ = done;
+            let sig = if let Some(pi) = ctx::take_any_panic() { format!("panic:{}", pi.site()) } else { "long-connection:request-failed".to_string() };
+            c.violation(&sig, &format!("request number {} ({} at a time) over one stream connection failed ({}) although the peer answers every request at once", k + 1, inflight, e), c.replay_of(fam, idx, ex));
+        }
+        Ok((done, None, max_id)) => {
+            c.count("long_connection_requests", done as u64);
+            c.evals_n(done as u64);
+            c.sig(&("long", inflight, max_id > 64));
+        }
+    }
+}
+
 pub fn run(c: &mut Ctx) {
+    // one long-lived connection per run in the quick tier, one per shard in the thorough tier
+    let fam = "long-connection";
+    let total = c.total(1, 16);
+    for idx in c.cases(fam, total) {
+        ctx::slot_write(idx, &format!("{}|case", fam), &[]);
+        long_connection_case(c, fam, idx);
+    }
     let fam = "scripts";
     let total = c.total(3_000, 300_000);
     for idx in c.cases(fam, total) {
@@ -714,7 +855,7 @@ pub fn run(c: &mut Ctx) {
         one_case(c, fam, idx);
     }
     if !c.replaying() {
-        for k in ["requests_answered", "requests_failed", "header_only_errors_delivered", "ids_used_for_more_than_one_request", "tc_fallbacks_completed", "peer_sent:wrong-id", "peer_sent:wrong-question", "peer_sent:foreign-answer", "peer_sent:close", "cases:stream", "reused_idle_connection_cases", "cases:multi_stream", "cases:redundant", "cases:load_balancer"] {
+        for k in ["requests_answered", "requests_failed", "header_only_errors_delivered", "ids_used_for_more_than_one_request", "tc_fallbacks_completed", "peer_sent:wrong-id", "peer_sent:wrong-question", "peer_sent:foreign-answer", "peer_sent:close", "cases:stream", "reused_idle_connection_cases", "burst_then_close_cases", "long_connection_requests", "cases:multi_stream", "cases:redundant", "cases:load_balancer"] {
             c.floor(k, 3);
         }
     }
